@@ -416,8 +416,29 @@ func runHostile(env *Env) error {
 		if len(b.steps) < n {
 			n = len(b.steps)
 		}
+		lastOpen := ""
 		for k := 0; k < n; k++ {
-			if !bytes.Equal(a.steps[k].out, b.steps[k].out) || a.steps[k].closed != b.steps[k].closed {
+			if reqs[k].Op == opOpenFile {
+				lastOpen = reqs[k].Path
+			}
+			ao, bo := a.steps[k].out, b.steps[k].out
+			if strings.Contains(lastOpen, "***") && len(ao) == len(bo) {
+				// a generated image is stamped with the moment it was opened (C18: the two volume time fields, and the time
+				// field of the OPEN_FILE answer); the two worlds are served one after the other
+				ao, bo = append([]byte(nil), ao...), append([]byte(nil), bo...)
+				switch {
+				case reqs[k].Op == opOpenFile && len(ao) == 16:
+					copy(ao[8:], make([]byte, 8))
+					copy(bo[8:], make([]byte, 8))
+				case reqs[k].Op == opReadFile && reqs[k].Off == 0:
+					for _, sct := range []int{16, 17} {
+						for p := 4 + sct*2048 + 813; p < 4+sct*2048+847 && p < len(ao); p++ {
+							ao[p], bo[p] = 0, 0
+						}
+					}
+				}
+			}
+			if !bytes.Equal(ao, bo) || a.steps[k].closed != b.steps[k].closed {
 				env.OracleFail(id, fmt.Sprintf("[C01-ni] request %d %s answered differently when only the surroundings of the root differ (%d vs %d bytes)", k, reqs[k].String(), len(a.steps[k].out), len(b.steps[k].out)))
 				break
 			}
